@@ -39,7 +39,6 @@ KERNELS = {
     "generate_ordered_map_to_left_both_unique_partial": {"owner": "C03", "mutated": [2]},
     "generate_ordered_map_to_left_remaining": {"owner": "C03", "mutated": [1, 2]},
     "generate_ordered_map_to_left_right_unique_remaining": {"owner": "C03", "mutated": [1]},
-    # translated and executed against the real kernel; no refinement theorem yet (the general finite-state kernel)
     "generate_ordered_map_to_left_partial": {"owner": "C03", "mutated": [4, 5]},
 }
 C08_NOSRC = ("apply_spans_count", "apply_spans_index_of_first", "apply_spans_index_of_last")
